@@ -2,36 +2,40 @@
   FusionCheck.lean — executable checkers (T3) for real fusion groups and `Fused` expressions.
   Definitions only, Mathlib-free.  Soundness: Lemmas/FusionTask.lean, Lemmas/FusionPass.lean.
 
-  `fusedOK dag f`   — the hypothesis of `C14_task`: decidable well-formedness of a (possibly nested)
-                      `Fused` node against the plan's node list.
+  `fusedOK dag f`   — the hypothesis of `C14_task`: decidable well-formedness of a `Fused` node (nested
+                      groups at any position and depth) against the plan's node list.
   `groupOKb dag root G` — the conclusion of `C14_group_ok`, decided on a concrete group.
 -/
 import DxModel.Fusion
 namespace Dx.Fusion
 open Dx
 
-/-- the ordinary (non-`Fused`) members of a fused node, nested groups flattened, in write order -/
+/-- the ordinary (non-`Fused`) members of a fused node, nested groups (at any position) flattened -/
 def flat (dag : Dag) : Nat → Node → List Nat
   | 0, _ => []
   | fuel+1, f =>
-    match f.members with
-    | [] => []
-    | r :: tail =>
-      (match getNode dag r with
-       | some rn => if rn.members ≠ [] then flat dag fuel rn else [r]
-       | none => [r]) ++ tail
+    f.members.flatMap (fun m =>
+      match getNode dag m with
+      | some mn => if mn.members ≠ [] then flat dag fuel mn else [m]
+      | none => [m])
 
-/-- every name inside a fused node: its members and, recursively, those of a nested first member -/
+/-- the names of the nested fused groups of `f`, all levels -/
+def nested (dag : Dag) : Nat → Node → List Nat
+  | 0, _ => []
+  | fuel+1, f =>
+    f.members.flatMap (fun m =>
+      match getNode dag m with
+      | some mn => if mn.members ≠ [] then m :: nested dag fuel mn else []
+      | none => [])
+
+/-- every name inside a fused node: its members and, recursively, those of nested groups -/
 def inner (dag : Dag) : Nat → Node → List Nat
   | 0, _ => []
   | fuel+1, f =>
-    f.members ++
-    (match f.members with
-     | [] => []
-     | r :: _ =>
-       match getNode dag r with
-       | some rn => if rn.members ≠ [] then inner dag fuel rn else []
-       | none => [])
+    f.members.flatMap (fun m =>
+      m :: (match getNode dag m with
+            | some mn => if mn.members ≠ [] then inner dag fuel mn else []
+            | none => []))
 
 /-- an ordinary blockwise node stored under its own name -/
 def plainAt (dag : Dag) (n : Nat) : Bool :=
@@ -39,32 +43,30 @@ def plainAt (dag : Dag) (n : Nat) : Bool :=
   | some nd => nd.blockwise && nd.members.isEmpty && nd.name == n
   | none => false
 
-/-- structure of one nesting level (and, recursively, of a nested first member):
-    * `f` is a blockwise node with the `Fused` broadcast rule, `members = r :: tail`;
-    * every non-first member is an ordinary blockwise node (nested groups only in first position)
-      that does not also occur inside the nested first member;
-    * the first member has the partition count of `f` and is ordinary or, recursively, a fused node;
-    * members have smaller names than `f` (a `Fused` is created after its members);
+/-- structure of a fused node `f` with partition count `np`, nested groups at any position:
+    * `f` is a blockwise node with the `Fused` broadcast rule and at least one member;
+    * every member is a blockwise node stored under its own, smaller, name (a `Fused` is created after
+      its members); a nested group has the partition count `np` and is, recursively, well formed;
+    * the first member has the partition count `np`;
     * no dependency of `f` is `f` itself or a name inside `f`. -/
-def levelOK (dag : Dag) : Nat → Node → Bool
+def levelOK (dag : Dag) (np : Nat) : Nat → Node → Bool
   | 0, _ => false
   | fuel+1, f =>
-    f.blockwise && f.kall &&
-    (match f.members with
-     | [] => false
-     | r :: tail =>
-       tail.all (fun t => plainAt dag t && decide (t < f.name)) && decide (r < f.name) &&
-       (match getNode dag r with
-        | some rn =>
-          rn.blockwise && rn.name == r && rn.npart == f.npart &&
-            (if rn.members ≠ [] then
-               levelOK dag fuel rn && tail.all (fun t => !decide (t ∈ inner dag fuel rn))
-             else true)
-        | none => false)) &&
+    f.blockwise && f.kall && f.npart == np && !f.members.isEmpty &&
+    f.members.all (fun m =>
+      decide (m < f.name) &&
+      (match getNode dag m with
+       | some mn =>
+         mn.blockwise && mn.name == m &&
+           (if mn.members ≠ [] then levelOK dag np fuel mn else true)
+       | none => false)) &&
+    (match getNode dag (f.members.headD 0) with
+     | some rn => rn.npart == np
+     | none => false) &&
     f.deps.all (fun d => !decide (d ∈ inner dag (fuel+1) f) && !decide (d = f.name))
 
-/-- conditions on the flattened members `S` of the outermost node `f`. -/
-def membersOK (dag : Dag) (f : Node) (S : List Nat) : Bool :=
+/-- conditions on the flattened ordinary members `S` (with `Fs` the nested groups) of the outermost node `f`. -/
+def membersOK (dag : Dag) (f : Node) (S Fs : List Nat) : Bool :=
   S.all (fun m =>
     plainAt dag m &&
     (match getNode dag m with
@@ -79,23 +81,31 @@ def membersOK (dag : Dag) (f : Node) (S : List Nat) : Bool :=
             (bcast mn dn || dn.npart == mn.npart)
           | none => false) &&
          -- references inside the group go to smaller names (acyclic), outside ones are dependencies of `f`
-         (if d ∈ S then decide (d < m) else decide (d ∈ f.deps)))
+         (if d ∈ S ∨ d ∈ Fs then decide (d < m) else decide (d ∈ f.deps)))
      | none => false))
 
 def nodupB : List Nat → Bool
   | [] => true
   | a :: l => !decide (a ∈ l) && nodupB l
 
+/-- the hypothesis of `C14_task` -/
 def fusedOK (dag : Dag) (f : Node) : Bool :=
-  levelOK dag (f.name + 1) f && membersOK dag f (flat dag (f.name + 1) f)
+  (match getNode dag f.name with | some g => decide (g = f) | none => false) &&
+  levelOK dag f.npart (f.name + 1) f &&
+  membersOK dag f (flat dag (f.name + 1) f) (nested dag (f.name + 1) f)
 
-/-- the unfused member tasks: `Blockwise._task(i)`, `i < npartitions`, for the members `S` only;
+/-- the unfused reference: `Blockwise._task(i)`, `i < npartitions`, for the ordinary members `S`; a nested
+    group `F ∈ Fs` stands for its first member (`Fused._task`: `graph[F._name] = (exprs[0]._name, index)`);
     everything else is an input. -/
-def memberGraph (dag : Dag) (S : List Nat) : Graph FKey
+def memberGraph (dag : Dag) (S Fs : List Nat) : Graph FKey
   | .part n i =>
     if n ∈ S then
       (match getNode dag n with
        | some nd => if i < nd.npart then some (plainTask dag nd i) else none
+       | none => none)
+    else if n ∈ Fs then
+      (match getNode dag n with
+       | some nd => some (.alias (.part (nd.members.headD 0) i))
        | none => none)
     else none
   | _ => none
@@ -115,23 +125,6 @@ def groupOKb (dag : Dag) (root : Nat) (G : List Nat) : Bool :=
       G.any (fun c => decide (g ∈ depsOf dag c)) &&
       (npartOf dag g == npartOf dag (G.headD 0) ||
         G.any (fun c => decide (g ∈ depsOf dag c) && bcastN dag c g)))
-
-/-- Order condition for nested groups at any position (NOT covered by `C14_task`, which handles nested
-    groups in first position only): `Fused._task` copies the placeholder entries of a nested member's
-    sub-graph; a dependency of the nested member that is itself a member written *earlier* would have
-    its task overwritten by that stale placeholder.  `nestOrderOK` rejects exactly that shape. -/
-def nestOrderOK (dag : Dag) (f : Node) : Bool :=
-  let rec go (before : List Nat) : List Nat → Bool
-    | [] => true
-    | m :: rest =>
-      (match getNode dag m with
-       | some mn => if mn.members ≠ [] then mn.deps.all (fun d => !decide (d ∈ before)) else true
-       | none => true) && go (before ++ [m]) rest
-  go [] f.members
-
-/-- is every nested group of `f` in first position (the fragment of `C14_task`)? -/
-def nestedFirstOnly (dag : Dag) (f : Node) : Bool :=
-  f.members.tail.all (fun m => match getNode dag m with | some mn => mn.members.isEmpty | none => true)
 
 /-- a decidable sufficient condition for `PlanOK` (Lemmas/FusionMeasure.lean): the root is a node and
     operands have smaller names than their consumers (post-order numbering) -/
